@@ -281,6 +281,28 @@ def call(pe, name, args, kwargs, node):
           out.append(v)
       vals = out
     return tuple(vals) if name == "tuple" else list(vals)
+  if name == "inspect.signature" and args and isinstance(
+      args[0], (Func, ClassRef)):
+    from .loader import function_params
+    f_ = args[0]
+    if isinstance(f_, ClassRef):
+      params = f_.cls.init_params()[0]
+    else:
+      params = function_params(f_.node, skip_self=f_.self_obj is not None)[0]
+    return Mock("signature", {"parameters": {p_: Mock("parameter", {
+        "name": p_, "default": d_}) for p_, d_ in params}})
+  if name in ("dict.fromkeys", "collections.OrderedDict.fromkeys",
+              "OrderedDict.fromkeys"):
+    # every key is bound to the SAME value object
+    val = args[1] if len(args) > 1 else None
+    return {k_: val for k_ in pe.iterate(args[0])}
+  if name == "frozenset":
+    vals = list(pe.iterate(args[0])) if args else []
+    out = []
+    for v in vals:
+      if v not in out:
+        out.append(v)
+    return tuple(out)
   if name in ("weakref.WeakKeyDictionary", "weakref.WeakValueDictionary",
               "WeakKeyDictionary", "WeakValueDictionary") and not args:
     return {}      # keyed by object identity; nothing is collected here
